@@ -23,6 +23,18 @@ def is_len_of(t, field):
         flow.mentions(t[2][0], lambda s: s[0] == "f" and s[2] == field)
 
 
+def is_len_term(t, field):
+    """The number of elements of `field`: vars.len(), a slice's length metadata (slice patterns), is_empty's operand."""
+    men = lambda x: flow.mentions(x, lambda s: s[0] == "f" and s[2] == field)  # noqa: E731
+    if is_len_of(t, field):
+        return True
+    if t[0] == "call" and t[1] == "len" and t[2] and men(t[2][0]):
+        return True
+    if t[0] == "un" and t[1] == "PtrMetadata" and men(t[2]):
+        return True
+    return False
+
+
 def is_value_discr(t):
     return t[0] == "discr" and t[1][0] == "f" and t[1][2] == "value"
 
@@ -64,10 +76,7 @@ def get_table(ctx, rep, rule):
         def ev(t):
             if t == ("discr", ("arg", 1)):
                 return pv[pdu]
-            if n is not None and (is_len_of(t, "vars") or (t[0] == "call" and t[1] == "len" and flow.mentions(t[2][0], lambda s: s[0] == "f" and s[2] == "vars"))):
-                return n
-            # slice patterns (`match vars.as_slice() { [] => .., [v] => .. }`) test the slice's length metadata
-            if n is not None and t[0] == "un" and t[1] == "PtrMetadata" and flow.mentions(t[2], lambda s: s[0] == "f" and s[2] == "vars"):
+            if n is not None and is_len_term(t, "vars"):
                 return n
             if val is not None and is_value_discr(t):
                 return vv[val]
